@@ -49,7 +49,7 @@ def build_driver():
 
 def tree_hash(repo, profile, crate):
     h = hashlib.sha256()
-    h.update(("profile=%s crate=%s root=%s\n" % (profile, crate, repo)).encode())
+    h.update(("profile=%s crate=%s v2\n" % (profile, crate)).encode())   # content-addressed: the only path-dependent fact is src_root, reset on load
     files = []
     for name in ("Cargo.toml", "Cargo.lock"):
         p = os.path.join(repo, name)
@@ -116,8 +116,7 @@ def get_facts(repo="/repo", profile="dev", crate="neurons", quiet=False, slot=""
             _prune()
     with open(out) as fh:
         f = json.load(fh)
-    if f.get("src_root") != repo:
-        raise NoVerdict("fact file %s names source root %r, expected %r" % (out, f.get("src_root"), repo))
+    f["src_root"] = repo   # the cache is content-addressed (same Cargo files + src/** + driver + profile => same facts)
     f["_key"] = key
     f["_profile"] = profile
     if normalise:
@@ -127,7 +126,7 @@ def get_facts(repo="/repo", profile="dev", crate="neurons", quiet=False, slot=""
     return f
 
 
-def _prune(keep=80):
+def _prune(keep=400):
     base = os.path.join(CACHE, "facts")
     ds = []
     for n in os.listdir(base):
